@@ -49,7 +49,9 @@ def gen_case(rng: random.Random, tier: str) -> dict:
     vars_ = rng.sample(["x", "y", "A", "B", "S"], rng.randint(1, 4))
     wrap = {v: (rng.random() < 0.3 and v in L) for v in vars_}
 
-    cwrap = {v: rng.choice(["C({v})", "C({v})", "C({v}, contr.sum)", "C({v}, contr.poly)", "C({v}, contr.helmert)"]) for v in vars_}
+    # (levels=lv_<v>: the level list comes from a context variable, which may evaluate differently when the spec is reused)
+    cwrap = {v: rng.choice(["C({v})", "C({v})", "C({v}, contr.sum)", "C({v}, contr.poly)", "C({v}, contr.helmert)", "C({v}, levels=lv_{v})",
+                            "C({v}, contr.sum, levels=lv_{v})"]) for v in vars_}
 
     def nm(v):
         return cwrap[v].format(v=v) if wrap[v] else v
@@ -107,7 +109,7 @@ def gen_case(rng: random.Random, tier: str) -> dict:
     return {"cols": cols, "formula": f, "output": rng.choice(["pandas", "numpy", "sparse"]), "scen": scen, "target": target,
             "label": nm(target), "change": change, "na": na, "wrapped": wrap.get(target, False), "tdtype": dts.get(target, "num"),
             "shape": sorted(len(t) for t in terms), "structured": rng.choice([None, None, None, "second", "first"]),
-            "gen2": rng.choice([None, None, "plain", "pickle", "deepcopy"]), "kind_as": rng.choice(["enum", "enum", "value"])}
+            "lv_reuse": rng.choice(["same", "shorter", "reordered"]), "gen2": rng.choice([None, None, "plain", "pickle", "deepcopy"]), "kind_as": rng.choice(["enum", "enum", "value"])}
 
 
 def judge(case) -> Outcome:
@@ -120,14 +122,17 @@ def judge(case) -> Outcome:
     df = make_frame({"cols": case["cols"], "index": None})
     f = case["formula"]
     tag = f"{f!r} scenario={scen} target={target} dtype={case['tdtype']} out={case['output']} na={case['na']} part={case.get('structured')}"
+    ctx_fit = {f"lv_{v}": list(lv) for v, lv in L.items()}
+    how = case.get("lv_reuse", "same")
+    ctx_reuse = {k: (v[:-1] if how == "shorter" else list(reversed(v)) if how == "reordered" else list(v)) for k, v in ctx_fit.items()}
     with quiet():
         try:
             if case.get("structured"):  # the formula is one part of a multi-part formula whose other part uses the same factors;
                 # its own spec is what gets reused afterwards
-                whole = model_matrix(f"{f} | {f}" if case["structured"] == "second" else f"{f} | x", df, output=case["output"], na_action=case["na"], context={})
+                whole = model_matrix(f"{f} | {f}" if case["structured"] == "second" else f"{f} | x", df, output=case["output"], na_action=case["na"], context=ctx_fit)
                 mm = whole[1] if case["structured"] == "second" else whole[0]
             else:
-                mm = model_matrix(f, df, output=case["output"], na_action=case["na"], context={})
+                mm = model_matrix(f, df, output=case["output"], na_action=case["na"], context=ctx_fit)
         except Exception as e:  # noqa: BLE001
             out.fail("c09.fit_raised", f"{tag}: {type(e).__name__}: {str(e)[:200]}")
             return out
@@ -144,7 +149,7 @@ def judge(case) -> Outcome:
     exc = None
     with quiet() as q:
         try:
-            m2 = spec.get_model_matrix(new)
+            m2 = spec.get_model_matrix(new, context=ctx_reuse)
         except Exception as e:  # noqa: BLE001
             exc = e
     warned = any(issubclass(w.category, DataMismatchWarning) for w in q.log)
@@ -174,7 +179,7 @@ def judge(case) -> Outcome:
         spec2 = {"plain": lambda s_: s_, "pickle": lambda s_: pickle.loads(pickle.dumps(s_)), "deepcopy": copy.deepcopy}[gen2](spec2)
         with quiet() as q2:
             try:
-                m3 = spec2.get_model_matrix(new)
+                m3 = spec2.get_model_matrix(new, context=ctx_reuse)
             except Exception as e:  # noqa: BLE001
                 out.fail("c09.reuse_raised", f"{tag}: second-generation spec ({gen2}): {type(e).__name__}: {str(e)[:200]}")
                 return out
@@ -208,7 +213,7 @@ def judge(case) -> Outcome:
         vals = case["change"]["values"]
         txt = [[n, ({"kind": "text", "dtype": "object", "values": vals} if n == target else c)] for n, c in newcols]
         with quiet():
-            ref = spec.get_model_matrix(make_frame({"cols": txt, "index": None}))
+            ref = spec.get_model_matrix(make_frame({"cols": txt, "index": None}), context=ctx_reuse)
         if warned:
             out.fail("c09.spurious_warning", f"{tag}: DataMismatchWarning although the level set is unchanged")
         if not np.allclose(M2, dense(ref), equal_nan=True):
